@@ -594,7 +594,7 @@ func TestVerifC35Laws(t *testing.T) {
 		}
 	}
 	// JSON values that are not revisions
-	for _, doc := range []string{`1.0`, `1e3`, `"x"`, `null`, `true`, `[1]`, `{}`, `"1.0"`, `""`, `"0"`, `"-1"`, `"x0"`, `9223372036854775808`, `"1"`, `1.5`, `-1.0`} {
+	for _, doc := range []string{`1.0`, `1e3`, `"x"`, `null`, `true`, `[1]`, `{}`, `"1.0"`, `""`, `"0"`, `"-1"`, `"x0"`, `9223372036854775808`, `"01x"`, `1.5`, `-1.0`} {
 		nStr++
 		if got := revFromJSON(doc); got.Ok {
 			rp.report("rev-json-accepts-invalid", fmt.Sprintf("json.Unmarshal(%q) into Revision", doc), "error", got.String())
